@@ -35,13 +35,14 @@ def custom(ctx):
     corpus = os.path.join(root, "corpus", "C04.txt")
     if os.path.exists(corpus) and os.path.getsize(corpus) > 0:
         cases, _ = ctx.run_harness(["c04", "--requests", corpus])
-        ctx.correspond(cases, compare_model=False)
+        ctx.correspond(cases)
     cases, stats = ctx.run_harness(["c04", "--tier", ctx.tier, "--seed", str(ctx.seed)])
     ctx.stats.extend(stats)
-    ctx.correspond(cases, compare_model=False)
-    ctx.extra["model_comparison"] = ("none at whole-program level: the fixpoint run is the property's own oracle; the stage "
-                                     "models (C09 printer/parser, C10 lexer, C15 names, C06 slots) are compared with the code "
-                                     "in their own checks")
+    ctx.correspond(cases)
+    ctx.extra["model_comparison"] = ("C04.reelab: the model predicts the second-generation IR skeleton of every expression "
+                                     "position (erase, unelab, elabTop, conversion) and is compared with what the real front end "
+                                     "makes of the real emitted text; C04.fix (whole-program byte fixpoint and slots) has no "
+                                     "model side, it is the property's own oracle (the model answers `unsupported`)")
 
 
 def _harness_exe():
@@ -67,6 +68,13 @@ def _source_of(ident):
 def shrink(req):
     """drop one source line at a time (a candidate the front end rejects is not a failure and is discarded by vlib)"""
     f = req.split("\t")
+    if len(f) >= 2 and f[0] == "C04.reelab":
+        lines = f[1].split("\\n")
+        for i in range(len(lines)):
+            if lines[i].strip() in ("", "{", "}"):
+                continue
+            yield "\t".join(["C04.reelab", "\\n".join(lines[:i] + lines[i + 1:]), "-", "-"])
+        return
     if len(f) < 2 or f[0] != "C04.fix":
         return
     src = _source_of(f[1])
@@ -112,7 +120,10 @@ SEARCH_SOURCES = [
 
 
 def nontrivial(req, obs):
-    return obs.startswith("ok:")
+    return obs.startswith("ok:") or obs.startswith("fn ")
+
+
+TEMPLATE_LOOKAHEAD_KEY = "rejected-by-parser: less-than ... greater-than followed by `(` is read as template arguments and a call"
 
 
 def finding_key(req, obs, detail):
@@ -121,6 +132,15 @@ def finding_key(req, obs, detail):
     m = re.match(r"FAIL:panic ([^:]+):\d+: (.*)$", detail or "")
     if m:
         return f"panic {m.group(1)}: " + re.sub(r"\d+", "N", m.group(2))
+    if "emitted HLSL is rejected" in (detail or "") and "failed to parse source" in detail:
+        # the printed line the parser gave up on: `x < y ... > (z)` is tried as a template argument list followed by a
+        # call (known C09 class `a < a > (a & a)`); identified by the shape of the offending line, not by the program
+        line = detail.split("failed to parse source", 1)[1]
+        if re.search(r"[^<]<(?![<=]).*[^>\-]>(?![>=]) \(", line):
+            return TEMPLATE_LOOKAHEAD_KEY
+    if req.startswith("C04.reelab\t"):
+        # the specific input: the source text (ctx / ir are derived from it)
+        return "C04.reelab\t" + req.split("\t")[1]
     return req
 
 
